@@ -29,7 +29,7 @@ KINDS = ('Module', 'ClassDef', 'FunctionDef', 'AsyncFunctionDef')
 
 
 def run(ctx):
-    for fn in (r1_exhaustive_kinds, r2_no_descent, r3_class_level, r3b_reset_ownership, r4_property_accessors, r4b_delegation, r5_main_guard, r6_package_walk, r7_keys, r8_compound_statements_descend):
+    for fn in (r1_exhaustive_kinds, r2_no_descent, r3_class_level, r3b_reset_ownership, r4_property_accessors, r4b_delegation, r5_main_guard, r6_package_walk, r7_keys, r8_compound_statements_descend, r9_google_tag_pattern):
         ctx.rep.rule(fn, ctx)
 
 
@@ -661,12 +661,53 @@ def r8_compound_statements_descend(ctx, rule='C07.R8'):
                 raise AnalysisError('C07.R8: generic_visit is overridden in a way that was not recognised')
 
 
+def r9_google_tag_pattern(ctx):
+    """REGEX-FACT (finite samples on the folded pattern): a google block label is recognised with one or two colons and with blanks before the
+    colon and after it -- an `Example: ` line with a trailing blank is still the label of an example block, not prose"""
+    import re as _re
+    from .common import fold_text
+    rep = ctx.rep
+    f = ctx.func('xdoctest.docstr.docscrape_google.split_google_docblocks')
+    uses = [c for c in walk_scope(f.node) if isinstance(c, ast.Call) and isinstance(c.func, ast.Attribute) and is_name(c.func.value, 're') and c.func.attr in ('match', 'search', 'fullmatch') and c.args]
+    rep.floor('C07.R9', 'applications of the block-label pattern', len(uses), 2)
+    def leaves(e):
+        if isinstance(e, ast.BinOp) and isinstance(e.op, ast.Add):
+            return leaves(e.left) + leaves(e.right)
+        return [e]
+
+    def pattern_text(e):
+        if isinstance(e, ast.Name):
+            ds = [x for x in walk_scope(f.node) if isinstance(x, ast.Assign) and len(x.targets) == 1 and is_name(x.targets[0], e.id)]
+            need(len(ds) == 1, 'C07.R9: the block-label pattern `%s` has several definitions' % e.id)
+            e = ds[0].value
+        out = ''
+        for lf in leaves(e):
+            if isinstance(lf, ast.Call) and isinstance(lf.func, ast.Attribute) and lf.func.attr == 'join' and isinstance(lf.func.value, ast.Constant) and lf.func.value.value == '|':
+                out += 'Example|Doctest|Args|Returns'     # the alternation of tag names (a table, not part of the shape that is decided here)
+            else:
+                out += fold_text(ctx, f, lf)
+        return out
+    pats = {}
+    for c in uses:
+        pats.setdefault(pattern_text(c.args[0]), []).append(c)
+    for pat, cs in pats.items():
+        rx = _re.compile(pat)
+        meth = cs[0].func.attr
+        samples = [('Example:', True), ('Example::', True), ('Example: ', True), ('Example:   ', True), ('Example :', True), ('Doctest:', True), ('Args:', True), ('Returns:  ', True),
+                   ('Example: text after', False), ('Examples of use', False), ('    Example:', False), ('NotATag:', False)]
+        bad = [(t, bool(getattr(rx, meth)(t))) for (t, w) in samples if bool(getattr(rx, meth)(t)) != w]
+        rep.ob('C07.R9', ctx.loc(f, cs[0]), 'block label pattern %r' % pat[-24:], not bad,
+               'labels with one or two colons and surrounding blanks are recognised, prose is not (12 samples)' if not bad else
+               'the block label pattern decides wrongly for %s: such a block is not split off (with google style its doctests are dropped, with auto the indices shift)' % bad, anchor=f.qualname)
+
+
 # ---------------------------------------------------------------------------
 from ..selftest import fire, silent      # noqa: E402
 
 SA = 'xdoctest/static_analysis.py'
 CO = 'xdoctest/core.py'
 VARIANTS = [
+    fire('block-label-rejects-trailing-blanks', 'C07.R9', ('xdoctest/docstr/docscrape_google.py', "') *::? *$'", "') *::?$'")),
     fire('generic-visit-with-fixed-field-list', 'C07.R8', (SA, "    # -- helpers ---\n", "    def generic_visit(self, node):\n        for field in ('body', 'orelse', 'handlers', 'finalbody'):\n            for child in getattr(node, field, None) or []:\n                self.visit(child)\n\n    # -- helpers ---\n")),
     fire('try-handlers-not-visited', 'C07.R8', (SA, "    # -- helpers ---\n", "    def visit_Try(self, node):\n        for child in node.body + node.orelse + node.finalbody:\n            self.visit(child)\n\n    # -- helpers ---\n")),
     fire('generic-visit-statements-only', 'C07.R8', (SA, "    # -- helpers ---\n", "    def generic_visit(self, node):\n        for child in ast.iter_child_nodes(node):\n            if isinstance(child, (ast.stmt, ast.excepthandler)):\n                self.visit(child)\n\n    # -- helpers ---\n")),
